@@ -7,9 +7,19 @@ fn epoch_to_timestamp<V: ValT>(v: &V) -> Result<Timestamp, Error<V>> {
     let fail = || Error::str(format_args!("cannot convert {v} to time"));
     let val = match v.as_isize() {
         Some(i) => (i as i64).checked_mul(1000000).ok_or_else(fail)?,
-        None => (v.try_as_f64()? * 1000000.0) as i64,
+        None => float_to_microsecond(v)?,
     };
     Timestamp::from_microsecond(val).map_err(Error::str)
+}
+
+/// Convert a floating-point UNIX epoch timestamp to microseconds.
+fn float_to_microsecond<V: ValT>(v: &V) -> Result<i64, Error<V>> {
+    let us = v.try_as_f64()? * 1000000.0;
+    // the `as i64` cast saturates, but it converts NaN to 0
+    if us.is_nan() {
+        return Err(Error::str(format_args!("cannot convert {v} to time")));
+    }
+    Ok(us as i64)
 }
 
 /// Convert a date-time pair to a UNIX epoch timestamp.
@@ -73,7 +83,7 @@ pub fn to_iso8601<V: ValT>(v: &V) -> Result<String, Error<V>> {
     let ts = if let Some(i) = v.as_isize() {
         Timestamp::from_second(i as i64)
     } else {
-        Timestamp::from_microsecond((v.try_as_f64()? * 1e6) as i64)
+        Timestamp::from_microsecond(float_to_microsecond(v)?)
     };
     Ok(ts.map_err(Error::str)?.to_string())
 }
